@@ -9,11 +9,11 @@ use ntex_io::testing::IoTest;
 use ntex_io::{Io, IoBoxed, IoConfig};
 use ntex_mqtt::{Control, MqttServiceConfig, Reason, v3, v5};
 use ntex_service::cfg::SharedCfg;
-use ntex_service::{Pipeline, Service, ServiceFactory, fn_factory_with_config, fn_service};
+use ntex_service::{Pipeline, Service, ServiceCtx, ServiceFactory, fn_factory_with_config, fn_service};
 use ntex_util::time::Seconds;
 
 use crate::app::{
-    App, ControlAnswer, DropGuard, Ev, GateKind, Outcome, ProtoAnswer, ReadMode, StopClass, TestErr,
+    App, ControlAnswer, DropGuard, Ev, GateKind, InnerOp, Outcome, ProtoAnswer, ReadMode, SVC_CTL, SVC_PROTO, SVC_PUB, SinkRes, StopClass, TestErr,
 };
 use crate::refcodec::{self, Packet as R, Prop, StreamDecoder, Ver};
 use crate::rt;
@@ -452,6 +452,68 @@ impl Conn {
 
 // ===================================================================================== handlers
 
+/// A user-supplied service whose readiness (`Service::ready`) is scripted by the controller
+/// (`App::set_ready`): ready, failing, or not ready for a while.
+pub struct Svc<F> {
+    app: Rc<App>,
+    which: usize,
+    f: F,
+}
+
+impl<F> Svc<F> {
+    pub fn new(app: &Rc<App>, which: usize, f: F) -> Self {
+        Svc { app: app.clone(), which, f }
+    }
+}
+
+impl<Req, Res, F, Fut> Service<Req> for Svc<F>
+where
+    F: Fn(Req) -> Fut,
+    Fut: Future<Output = Result<Res, TestErr>>,
+{
+    type Response = Res;
+    type Error = TestErr;
+
+    async fn ready(&self, _: ServiceCtx<'_, Self>) -> Result<(), TestErr> {
+        if self.app.service_ready(self.which).await { Ok(()) } else { Err(TestErr::Plain) }
+    }
+
+    async fn call(&self, req: Req, _: ServiceCtx<'_, Self>) -> Result<Res, TestErr> {
+        (self.f)(req).await
+    }
+}
+
+/// logs `SinkRet(Dropped)` if the handler is cancelled while it awaits its inner operation
+struct InnerGuard {
+    app: Rc<App>,
+    op: u32,
+    armed: bool,
+}
+
+impl Drop for InnerGuard {
+    fn drop(&mut self) {
+        if self.armed {
+            self.app.log(Ev::SinkRet { op: self.op, n: 0, res: SinkRes::Dropped });
+        }
+    }
+}
+
+/// a handler uses the sink and awaits the result before it answers
+async fn inner_op(app: &Rc<App>, op: InnerOp) {
+    let sink = app.sink.borrow().clone();
+    let Some(sink) = sink else { return };
+    let id = crate::sink::next_op_id();
+    let (what, fut) = match op {
+        InnerOp::SendQ1 => ("inner-q1", sink.send_qos1(&crate::sink::PubSpec::new("inner/t", vec![7; 5]))),
+        InnerOp::Ready => ("inner-ready", sink.ready()),
+    };
+    app.log(Ev::SinkCall { op: id, n: 0, what: what.into() });
+    let mut g = InnerGuard { app: app.clone(), op: id, armed: true };
+    let r = fut.await;
+    g.armed = false;
+    app.log(Ev::SinkRet { op: id, n: 0, res: r });
+}
+
 fn classify_stop<E: std::fmt::Debug>(msg: &Control<E>) -> (String, Option<StopClass>, String) {
     match msg {
         Control::WrBackpressure(s) => (format!("wr({})", s.enabled()), None, String::new()),
@@ -570,6 +632,10 @@ where
             }
         }
     }
+    let inner = app.pub_inner.borrow_mut().pop_front().flatten();
+    if let Some(op) = inner {
+        inner_op(app, op).await;
+    }
     let outcome = if plan.gated {
         let g = app.gate(GateKind::Pub, call);
         g.wait().await
@@ -586,6 +652,10 @@ async fn proto_common(app: &Rc<App>, kind: &'static str, pid: Option<u16>) -> Pr
     app.log(Ev::ProtoEnter { call, kind, pid });
     let guard = DropGuard::new(app, GateKind::Proto, call, 0);
     let plan = app.take_proto_plan();
+    let inner = app.proto_inner.borrow_mut().pop_front().flatten();
+    if let Some(op) = inner {
+        inner_op(app, op).await;
+    }
     if plan.gated {
         let g = app.gate(GateKind::Proto, call);
         g.wait().await;
@@ -857,11 +927,13 @@ macro_rules! v3_server {
         })
         .protocol(fn_factory_with_config(|session: v3::Session<Rc<App>>| async move {
             let app = (*session).clone();
-            Ok::<_, TestErr>(fn_service(move |msg: v3::ProtocolMessage| v3_protocol(app.clone(), msg)))
+            let app2 = app.clone();
+            Ok::<_, TestErr>(Svc::new(&app2, SVC_PROTO, move |msg: v3::ProtocolMessage| v3_protocol(app.clone(), msg)))
         }))
         .control(fn_factory_with_config(|session: v3::Session<Rc<App>>| async move {
             let app = (*session).clone();
-            Ok::<_, TestErr>(fn_service(move |msg: Control<TestErr>| {
+            let app2 = app.clone();
+            Ok::<_, TestErr>(Svc::new(&app2, SVC_CTL, move |msg: Control<TestErr>| {
                 let app = app.clone();
                 async move { v3_control_answer(control_common(app, msg).await) }
             }))
@@ -892,7 +964,8 @@ fn v3_publish_factory(cfg: &ConnCfg) -> ntex_service::boxed::BoxServiceFactory<v
             let route = route.clone();
             async move {
                 let app = (*session).clone();
-                Ok::<_, TestErr>(fn_service(move |p: v3::Publish| v3_publish(app.clone(), p, route.clone())))
+                let app2 = app.clone();
+                Ok::<_, TestErr>(Svc::new(&app2, SVC_PUB, move |p: v3::Publish| v3_publish(app.clone(), p, route.clone())))
             }
         })
     };
@@ -964,11 +1037,13 @@ macro_rules! v5_server {
     })
     .protocol(fn_factory_with_config(|session: v5::Session<Rc<App>>| async move {
         let app = (*session).clone();
-        Ok::<_, TestErr>(fn_service(move |msg: v5::ProtocolMessage| v5_protocol(app.clone(), msg)))
+        let app2 = app.clone();
+        Ok::<_, TestErr>(Svc::new(&app2, SVC_PROTO, move |msg: v5::ProtocolMessage| v5_protocol(app.clone(), msg)))
     }))
     .control(fn_factory_with_config(|session: v5::Session<Rc<App>>| async move {
         let app = (*session).clone();
-        Ok::<_, TestErr>(fn_service(move |msg: Control<TestErr>| {
+        let app2 = app.clone();
+        Ok::<_, TestErr>(Svc::new(&app2, SVC_CTL, move |msg: Control<TestErr>| {
             let app = app.clone();
             async move { v5_control_answer(control_common(app, msg).await) }
         }))
@@ -1001,7 +1076,8 @@ fn v5_publish_factory(
             let route = route.clone();
             async move {
                 let app = (*session).clone();
-                Ok::<_, TestErr>(fn_service(move |p: v5::Publish| v5_publish(app.clone(), p, route.clone())))
+                let app2 = app.clone();
+                Ok::<_, TestErr>(Svc::new(&app2, SVC_PUB, move |p: v5::Publish| v5_publish(app.clone(), p, route.clone())))
             }
         })
     };
@@ -1078,22 +1154,22 @@ pub async fn start_client_opts(cfg: &ConnCfg, app: Rc<App>, send_connack: bool) 
                         app2.log(Ev::HandshakeExit("connected".into()));
                         let appc = app2.clone();
                         let appp = app2.clone();
-                        let control = fn_service(move |msg: Control<TestErr>| {
+                        let control = Svc::new(&app2, SVC_CTL, move |msg: Control<TestErr>| {
                             let app = appc.clone();
                             async move { v3_control_answer(control_common(app, msg).await) }
                         });
-                        let proto = fn_service(move |msg: v3::client::ProtocolMessage| v3_client_protocol(appp.clone(), msg));
+                        let proto = Svc::new(&app2, SVC_PROTO, move |msg: v3::client::ProtocolMessage| v3_client_protocol(appp.clone(), msg));
                         let r = if cfg2.client_resources.is_empty() {
                             client.start_with_control(proto, control).await.map_err(|e| format!("{e:?}"))
                         } else {
                             let apph = app2.clone();
                             let first = cfg2.client_resources[0].clone();
                             let f1 = first.clone();
-                            let mut router = client.resource(first.as_str(), fn_service(move |p: v3::Publish| v3_publish(apph.clone(), p, f1.clone())));
+                            let mut router = client.resource(first.as_str(), Svc::new(&app2, SVC_PUB, move |p: v3::Publish| v3_publish(apph.clone(), p, f1.clone())));
                             for r in cfg2.client_resources.iter().skip(1) {
                                 let apph = app2.clone();
                                 let r2 = r.clone();
-                                router = router.resource(r.as_str(), fn_service(move |p: v3::Publish| v3_publish(apph.clone(), p, r2.clone())));
+                                router = router.resource(r.as_str(), Svc::new(&app2, SVC_PUB, move |p: v3::Publish| v3_publish(apph.clone(), p, r2.clone())));
                             }
                             router.start(proto).await.map_err(|e| format!("{e:?}"))
                         };
@@ -1128,22 +1204,22 @@ pub async fn start_client_opts(cfg: &ConnCfg, app: Rc<App>, send_connack: bool) 
                         app2.log(Ev::HandshakeExit("connected".into()));
                         let appc = app2.clone();
                         let appp = app2.clone();
-                        let control = fn_service(move |msg: Control<TestErr>| {
+                        let control = Svc::new(&app2, SVC_CTL, move |msg: Control<TestErr>| {
                             let app = appc.clone();
                             async move { v5_control_answer(control_common(app, msg).await) }
                         });
-                        let proto = fn_service(move |msg: v5::client::ProtocolMessage| v5_client_protocol(appp.clone(), msg));
+                        let proto = Svc::new(&app2, SVC_PROTO, move |msg: v5::client::ProtocolMessage| v5_client_protocol(appp.clone(), msg));
                         let r = if cfg2.client_resources.is_empty() {
                             client.start_with_control(proto, control).await.map_err(|e| format!("{e:?}"))
                         } else {
                             let apph = app2.clone();
                             let first = cfg2.client_resources[0].clone();
                             let f1 = first.clone();
-                            let mut router = client.resource(first.as_str(), fn_service(move |p: v5::Publish| v5_publish(apph.clone(), p, f1.clone())));
+                            let mut router = client.resource(first.as_str(), Svc::new(&app2, SVC_PUB, move |p: v5::Publish| v5_publish(apph.clone(), p, f1.clone())));
                             for r in cfg2.client_resources.iter().skip(1) {
                                 let apph = app2.clone();
                                 let r2 = r.clone();
-                                router = router.resource(r.as_str(), fn_service(move |p: v5::Publish| v5_publish(apph.clone(), p, r2.clone())));
+                                router = router.resource(r.as_str(), Svc::new(&app2, SVC_PUB, move |p: v5::Publish| v5_publish(apph.clone(), p, r2.clone())));
                             }
                             router.start(proto).await.map_err(|e| format!("{e:?}"))
                         };
